@@ -271,7 +271,16 @@ def build_pkg(rec: dict) -> bytes:
 def _open(data: bytes, form: str, pos: int, api: str, disk: SimDisk, tag: str):
     import pptx
     from pptx.package import Package
-    opener = pptx.Presentation if api == "presentation" else Package.open
+    opener_ = pptx.Presentation if api == "presentation" else Package.open
+
+    def opener(arg):
+        # liveness: one open enters a bounded number of Python functions (seams.step_budget: deterministic step count, not wall-clock)
+        try:
+            with seams.step_budget(seams.budget_for(data)):
+                return opener_(arg)
+        except seams.StepBudgetExceeded as e:
+            raise Violation("liveness|open-exceeded-step-budget|%s" % form, str(e), CLAUSES["open"])
+
     if form == "path":
         disk.put(tag, data)
         p = disk.materialize(tag, ".pptx")
